@@ -390,10 +390,15 @@ func (d *decExtractor) plusLit(e ast.Expr, base string) int64 {
 //	conn.go           (*Conn).ReadBatchWith              empty message set when highWaterMark == offset
 func extractDecoder(repo, root string) error {
 	d := &decExtractor{fset: token.NewFileSet()}
+	alias := decAliases(repo)
 	parse := func(name string) (*ast.File, error) {
-		return parser.ParseFile(d.fset, filepath.Join(repo, name), nil, 0)
+		f, err := parser.ParseFile(d.fset, filepath.Join(repo, name), nil, 0)
+		if err == nil {
+			decApplyAliases(f, alias)
+		}
+		return f, err
 	}
-	nz := newDecNormaliser(d.fset, repo)
+	nz := newDecNormaliserAliased(d.fset, repo, alias)
 	d.nz = nz
 	need := func(f *ast.File, file, recv, name string) (*ast.FuncDecl, error) {
 		if fd := decFunc(f, recv, name); fd != nil {
